@@ -310,8 +310,10 @@ func (conn *Tunnel) requestTunnel(data cemi.Message) error {
 				return errors.New("connection server has terminated")
 			}
 
-			// Ignore mismatching sequence numbers.
-			if res.SeqNumber != conn.seqNumber {
+			// Ignore mismatching sequence numbers, and acknowledgements that were addressed to a
+			// previous connection: one of those may still be waiting to be handed over after a
+			// reconnect, when the sequence numbers have started from zero again.
+			if res.Channel != req.Channel || res.SeqNumber != conn.seqNumber {
 				continue
 			}
 
